@@ -32,7 +32,7 @@ assert sh("git status --porcelain --untracked-files=no", cwd=wt)[1].strip() == "
 rc, out = sh("git apply %s" % patch, cwd=wt)
 assert rc == 0, out
 try:
-    rc, out = sh("/venv/bin/python -m pytest -q -p no:cacheprovider --timeout=900 --continue-on-collection-errors -q", cwd=wt, env=env)
+    rc, out = sh("/venv/bin/python -m pytest -q -p no:cacheprovider --timeout=900 --continue-on-collection-errors", cwd=wt, env=env)
     m = re.search(r"(\d+) failed, (\d+) passed", out)
     fails = sorted(set(re.findall(r"FAILED (\S+)", out)))
     meta["confirmed"]["suite_with_change"] = {"summary": m.group(0) if m else out[-200:], "failed": fails}
